@@ -360,6 +360,18 @@ def r3_scans(repo, report):
         report.unrecognised("C13.R3", "nextseq_trim_index: initial values and result", "scan roles not identified", repo.loc(nx))
     else:
         ok = v.get(rn["sum"]) == "0" and v.get(rn["best"]) == "0" and (v.get(rn["index"]) or "").startswith("len(") and rets == [rn["index"]]
+        # nothing but these plain initialisations touches the three variables before the scan: a preliminary pass that moves
+        # the index (e.g. skipping trailing G bases) starts the scan with the deficits of the skipped bases forgotten
+        touched = []
+        for st in body[:body.index(ln)]:
+            if isinstance(st, (ast.Assign, ast.AnnAssign)):
+                continue
+            for x in ast.walk(st):
+                if (isinstance(x, ast.Name) and isinstance(x.ctx, ast.Store) and x.id in rn.values()) or (isinstance(x, ast.AugAssign) and isinstance(x.target, ast.Name) and x.target.id in rn.values()):
+                    touched.append(f"line {st.lineno}: {src(st)[:60]}")
+                    break
+        report.ob("C13.R3", "nextseq_trim_index: the scan starts from the initial values", not touched, facts={"statements_before_the_scan": touched}, loc=repo.loc(nx), expected="sum, best and index are only initialised before the scan",
+                  why=(f"{touched[0]} changes the scan's state before the scan: the partial sums no longer include every base from the 3' end" if touched else ""))
         report.ob("C13.R3", "nextseq_trim_index: initial values and result", ok, facts={k: v.get(n_) for k, n_ in rn.items()} | {"returns": rets}, expected="sum = best = 0, index = len(qualities); returns the index", loc=repo.loc(nx))
     # R4: base only shifts the scale
     for fn_, label in ((q, "quality_trim_index"), (nx, "nextseq_trim_index")):
